@@ -30,13 +30,13 @@ func init() {
 func (c10) ID() string    { return "C10" }
 func (c10) Level() string { return "exploration" }
 func (c10) Rule() string {
-	return "A case is a real git repository whose policy protects main (developers 1 and 2) and, by file rules, one exact odd-named path and everything under a directory whose name contains a space (developer 1 only). The harness writes — with NUL-delimited plumbing and in-process signatures — a commit graph (linear commits, a root commit, a merge of a side branch) over an alphabet of path names with space, tab, quote, backslash, control and multi-byte characters and glob metacharacters, signed by developer 1, developer 2 or nobody, and records 1-3 pushes of main. Oracle: (i) GetFilePathsChangedByCommit, GetAllFilesInTree and GetEntriesInTree return exactly the names the harness wrote; (ii) full verification must reject when a non-merge commit newly introduced to main changes a protected path without developer 1's signature, and must accept when every commit that changes a protected path is signed by developer 1. Distinct = distinct (name classes touched, graph shape, signer pattern, verdict); non-trivial = an odd-named protected path was changed by a newly introduced commit."
+	return "A case is a real git repository whose policy protects main (developers 1 and 2) and, by file rules, one exact odd-named path (one of 8 names with a non-ASCII character, space, backslash, *, ?, [, quote or tab; the rule's pattern is that name with pattern metacharacters backslash-escaped) and everything under a directory whose name contains a space (developer 1 only). The harness writes — with NUL-delimited plumbing and in-process signatures — a commit graph (linear commits, a root commit, a merge of a side branch) over an alphabet of path names with space, tab, quote, backslash, control and multi-byte characters and glob metacharacters, signed by developer 1, developer 2 or nobody, and records 1-3 pushes of main. Oracle: (i) GetFilePathsChangedByCommit, GetAllFilesInTree and GetEntriesInTree return exactly the names the harness wrote; (ii) full verification must reject when a non-merge commit newly introduced to main changes a protected path without developer 1's signature, and must accept when every commit that changes a protected path is signed by developer 1. Distinct = distinct (name classes touched, graph shape, signer pattern, verdict); non-trivial = an odd-named protected path was changed by a newly introduced commit."
 }
 func (c10) Components() map[string]string {
 	return map[string]string{"pkg/gitinterface (changes.go, tree.go, log.go, commit.go)": "real", "internal/policy verifier (file rules)": "real", "pkg/rsl": "real", "git 2.39 on tmpfs": "real", "history writer": "harness plumbing (mktree -z, hash-object, in-process sshsig)"}
 }
 func (c10) Assumptions() []string {
-	return []string{"file rule patterns are a literal name without glob or escape characters and a directory prefix ending in /*; odd characters appear in the matched names, not in the patterns (a backslash or metacharacter in a pattern is pattern syntax)", "reject obligations come from non-merge commits only; the accept direction requires merges to be signed by developer 1 whenever they differ from any parent in a protected path"}
+	return []string{"file rule patterns are a backslash-escaped literal name and a directory prefix ending in /*; unescaped metacharacters in patterns (real wildcards other than the trailing /*) are not generated", "reject obligations come from non-merge commits only; the accept direction requires merges to be signed by developer 1 whenever they differ from any parent in a protected path"}
 }
 
 var c10Names = []string{
@@ -44,8 +44,22 @@ var c10Names = []string{
 	"secret dir/key", "secret dir/sp ace", "secret dir/ü", "secret dir/a\"b", "secret dir/deep/x y", "secret dir/st*r", "secret dir/back\\slash",
 }
 
-const c10Exact = "ünï.txt"
-const c10ExactAlt = "sp ace"
+// c10ExactNames are the names the literal file rule may protect. The rule's
+// pattern is the name with the pattern syntax's own metacharacters (backslash,
+// *, ?, [) escaped by a backslash, as the documented fnmatch syntax requires
+// for a pattern that is to match exactly that name.
+var c10ExactNames = []string{"ünï.txt", "sp ace", "back\\slash", "st*r", "q?m", "[br]", "qu\"ote", "tab\tname"}
+
+func c10EscapePattern(name string) string {
+	var b strings.Builder
+	for _, ch := range name {
+		if strings.ContainsRune("\\*?[", ch) {
+			b.WriteByte('\\')
+		}
+		b.WriteRune(ch)
+	}
+	return b.String()
+}
 
 func c10Protected(name string, exact string) bool {
 	return name == exact || strings.HasPrefix(name, "secret dir/")
@@ -53,8 +67,8 @@ func c10Protected(name string, exact string) bool {
 
 func (c10) Generate(r *core.Rand, tier string, idx uint64) *core.Case {
 	c := &core.Case{Property: "C10", Engine: "git", Config: map[string]int{}, Flags: map[string]bool{}, Strs: map[string]string{}}
-	c.Config["exact"] = int(idx % 2)   // which exact name the literal file rule protects
-	c.Config["shape"] = int(idx/2) % 3 // 0 linear, 1 merge of a side branch, 2 second root commit merged
+	c.Config["exact"] = int(idx % uint64(len(c10ExactNames)))   // which exact name the literal file rule protects
+	c.Config["shape"] = int(idx/uint64(len(c10ExactNames))) % 3 // 0 linear, 1 merge of a side branch, 2 second root commit merged
 	c.Config["pushes"] = r.Range(1, 2)
 	c.Config["commits"] = r.Range(1, 3)
 	c.Flags["honest"] = r.Chance(0.4) // every protected change signed by developer 1
@@ -107,12 +121,12 @@ func (d c10) Execute(c *core.Case) (res *core.Result) {
 		res.HarnessErr = err.Error()
 		return res
 	}
-	exact := []string{c10Exact, c10ExactAlt}[c.Config["exact"]]
+	exact := c10ExactNames[c.Config["exact"]%len(c10ExactNames)]
 	// policy, written with plumbing
 	pol := simplePolicy([]int{1, 2}, 1)
 	t := pol.Files["targets"]
 	t.Rules = append(t.Rules,
-		world.RuleSpec{Name: "protect-exact", Patterns: []string{"file:" + exact}, Principals: []string{world.GetKey(1).ID}, Threshold: 1},
+		world.RuleSpec{Name: "protect-exact", Patterns: []string{"file:" + c10EscapePattern(exact)}, Principals: []string{world.GetKey(1).ID}, Threshold: 1},
 		world.RuleSpec{Name: "protect-secret-dir", Patterns: []string{"file:secret dir/*"}, Principals: []string{world.GetKey(1).ID}, Threshold: 1})
 	md, err := pol.Build()
 	if err != nil {
@@ -165,6 +179,9 @@ func (d c10) Execute(c *core.Case) (res *core.Result) {
 		changed := []string{}
 		for i := 0; i < nChanges; i++ {
 			name := c10Names[r.Intn(len(c10Names))]
+			if r.Chance(0.3) {
+				name = exact // the path the literal rule protects
+			}
 			conflict := false
 			for ex := range cur {
 				if strings.HasPrefix(ex, name+"/") || strings.HasPrefix(name, ex+"/") {
